@@ -247,6 +247,9 @@ class Question(object):
 
             try:
                 return self._validator(interviewer())
+            except RuntimeError:
+                # The input was aborted (end of input): asking again cannot succeed
+                raise
             except Exception as e:
                 error = e
 
